@@ -26,3 +26,82 @@ pub(crate) fn const_eval(begin: bool, name: &str) {
         hook(begin, name);
     }
 }
+
+/// One source location cited by an error report.
+#[derive(Clone, Debug)]
+pub struct Citation {
+    /// `"parse"`, `"parse-hint"`, `"type"` or `"type-label"`
+    pub what: &'static str,
+    /// Index into [`RotoReport::files`](crate::RotoReport)
+    pub file: usize,
+    /// Byte offset of the start
+    pub start: usize,
+    /// Byte offset of the end
+    pub end: usize,
+}
+
+/// The kind of every error in a report: `"read"`, `"parse"`, `"type"`,
+/// `"tests-failed"`, `"function-retrieval"` or `"custom"`.
+pub fn report_kinds(report: &crate::RotoReport) -> Vec<&'static str> {
+    use crate::RotoError::*;
+    report
+        .errors
+        .iter()
+        .map(|e| match e {
+            Read(..) => "read",
+            Parse(_) => "parse",
+            Type(_) => "type",
+            TestsFailed() => "tests-failed",
+            CouldNotRetrieveFunction(_) => "function-retrieval",
+            Custom(_) => "custom",
+        })
+        .collect()
+}
+
+/// Every source location that a report cites (as raw byte spans).
+pub fn report_citations(report: &crate::RotoReport) -> Vec<Citation> {
+    use crate::RotoError::*;
+    let mut out = Vec::new();
+    for e in &report.errors {
+        match e {
+            Parse(p) => {
+                let s = p.location;
+                out.push(Citation {
+                    what: "parse",
+                    file: s.file,
+                    start: s.start,
+                    end: s.end,
+                });
+                for h in &p.hints {
+                    let s = h.location;
+                    out.push(Citation {
+                        what: "parse-hint",
+                        file: s.file,
+                        start: s.start,
+                        end: s.end,
+                    });
+                }
+            }
+            Type(t) => {
+                let s = report.spans.get(t.location);
+                out.push(Citation {
+                    what: "type",
+                    file: s.file,
+                    start: s.start,
+                    end: s.end,
+                });
+                for l in &t.labels {
+                    let s = report.spans.get(l.id);
+                    out.push(Citation {
+                        what: "type-label",
+                        file: s.file,
+                        start: s.start,
+                        end: s.end,
+                    });
+                }
+            }
+            _ => {}
+        }
+    }
+    out
+}
